@@ -315,12 +315,18 @@ class Ctx:
             print("VIOLATION property=%s replay=%s  # %s: %s" % (self.pid, path, key, what), flush=True)
         self.violations.append((key, what))
 
-    def consume_verdicts(self, path):
+    def consume_verdicts(self, path, rec_path=None):
         """Read the harness' verdict ndjson: lines {"kind":"disagree","key":..,"what":..,"detail":..}
         or {"kind":"summary", ...}. Returns the summary dict (merged)."""
         summary = {}
+        recf = open(rec_path, "w") if rec_path else None
         with open(path) as f:
             for line in f:
+                if recf is not None and line.startswith('{"kind":"rec"'):
+                    # {"kind":"rec","rec":{...}}
+                    recf.write(line[20:-2])
+                    recf.write("\n")
+                    continue
                 line = line.strip()
                 if not line:
                     continue
@@ -351,6 +357,8 @@ class Ctx:
                             summary[a] = b
                 elif k == "fatal":
                     raise MachineryError("harness reported a machinery failure: %s" % r.get("what"))
+        if recf is not None:
+            recf.close()
         return summary
 
     # --------------------------------------------------------------- evidence
